@@ -14,7 +14,7 @@ ASSUMPTIONS = [
 ]
 BOUNDS = {
     "quick": "every 2nd trie of the 64-trie family (32 tries) x {pruning, non-pruning} x {direct, inside squash_changes} + on every 4th trie a pruning trie freshly opened on the database (empty count table) with a two-write batch; 6 operations x <=8 keys / <=12 paths; all subsets of missing nodes (lazily split); retry loop until success",
-    "thorough": "all 379 tries x 4 configurations",
+    "thorough": "every 2nd of the 379 tries x 4 configurations + the fresh-pruning configuration",
 }
 OUTSIDE = "databases that fail other than by KeyError; nodes going missing between the retries; keys outside the pools"
 NONTRIVIAL_RULE = "the operation first failed with a missing-node error at least once and then converged"
@@ -27,7 +27,7 @@ def jobs(tier):
     out = []
     cfgs = [(False, False), (True, False), (False, True), (True, True)]
     for mi in range(n):
-        if tier == "quick" and mi % 2 != 0:
+        if mi % 2 != 0:
             continue
         for ci, (prune, batch) in enumerate(cfgs):
             out.append({"module": "vf.props.hexmiss", "fn": "h_missing", "cfg": dict(qbase, mi=mi, prune=prune, batch=batch), "pct": 2400, "ppt": 60})
